@@ -207,3 +207,14 @@ func atoi(s string) int {
 	}
 	return v
 }
+
+// crc64Trailer: the 8-byte little-endian CRC-64 of data, computed bit by bit by the harness itself — generators never ask the
+// code under test for a checksum
+func crc64Trailer(data []byte) []byte {
+	v := crc64bitwise(0, data)
+	out := make([]byte, 8)
+	for k := 0; k < 8; k++ {
+		out[k] = byte(v >> (8 * uint(k)))
+	}
+	return out
+}
